@@ -31,7 +31,7 @@ for n in $NS; do
   if [ $rc_clean -eq 0 ] && [ $rc_patched -ne 0 ] && [ -z "$failed" ]; then verdict="CONFIRMED"; fi
   echo "$ID-$n: $verdict tests=[$tests] failed=[$failed] demo_clean_rc=$rc_clean demo_patched_rc=$rc_patched"
   if [ "$verdict" = "CONFIRMED" ]; then
-    DST="$SRC/seeded/$ID-$n"; mkdir -p "$DST"
+    DST="$SRC/seeded/$ID-${ROUND:+$ROUND-}$n"; mkdir -p "$DST"
     cp "$P" "$DST/patch.diff"; cp "$D" "$DST/demo.sh"
     python3 - "$M" "$DST/meta.json" "$ID" "$tests" "$rc_clean" "$rc_patched" <<'PY'
 import json,sys
